@@ -63,6 +63,126 @@ type c13Env struct {
 	forced  []string // operation kinds that must be generated next, in order
 	freed   []c13Freed // (market, external id) pairs that some open order carried earlier and none carries now
 	xrMkt   uint32     // market of the scripted external-id re-use sequence
+	x100Mkt uint32     // market of the scripted 100-byte external id
+	assets  []string   // asset / commitment denoms in use in this history (3 base + some special ones)
+	dnames  map[string]string // denom -> Coq variable
+	hold    func(ctx sdk.Context, addr sdk.AccAddress, amt sdk.Coins) error
+	initGen func(ctx sdk.Context, gs *exchange.GenesisState) error
+}
+
+// ---- denoms ----
+// sdk.ValidateDenom with this chain's regex (app.SdkCoinDenomRegex): [a-zA-Z][a-zA-Z0-9/\-\.]{2,127}
+// (':' and '_' are legal in the SDK default but not here: they are used as malformed inputs).  The
+// store keys and the listing requests are case sensitive; the by-asset index key has no separator
+// after the denom.
+var c13BaseAssets = []string{"aaa", "aaab", "bbb"}
+
+const c13IbcUp = "ibc/27394FB092D2ECCD56123C74F36E4C1F926001CEADA9CA97EA622B25F41E5EB2"
+
+var c13Long128 = "L" + strings.Repeat("x9/A-b.C0d-", 11) + "ZZzz01" // 1 + 121 + 6 = 128 characters
+
+// c13SpecialAssets: upper-case letters, digits and every legal punctuation character, denoms that
+// differ only by case, denoms that are prefixes of one another, the longest legal denom.
+var c13SpecialAssets = []string{
+	"Aaa", "aaA", "AAA", // differ from "aaa" only by case
+	c13IbcUp, strings.ToLower(c13IbcUp), // an IBC voucher denom and its lower-case twin (a different legal denom)
+	c13IbcUp[:12], c13IbcUp[:13], // prefixes of one another (and of the voucher denom)
+	"fac/T.k-n1", "Fac/T.k-n1",
+	c13Long128, c13Long128[:127], // the longest legal denom and its 127-character prefix
+}
+
+var c13PriceDenoms = []string{"pricecoin", "pricecoin", "pricecoin", "Pricecoin", "ibc/PRICE0F", "p1.x-y/Q", "P" + strings.Repeat("r1-", 42) + "c"}
+
+func c13AllDenoms() []string {
+	out := append([]string{}, c13BaseAssets...)
+	out = append(out, c13SpecialAssets...)
+	seen := map[string]bool{}
+	for _, d := range out {
+		seen[d] = true
+	}
+	for _, d := range c13PriceDenoms {
+		if !seen[d] {
+			seen[d] = true
+			out = append(out, d)
+		}
+	}
+	return out
+}
+
+// pickAssets chooses the denoms of one history: the three base denoms plus three special ones,
+// one of them together with a case / prefix sibling.
+func (e *c13Env) pickAssets() {
+	r := e.r
+	e.assets = append([]string{}, c13BaseAssets...)
+	sib := [][]string{{"Aaa", "aaA"}, {"AAA", "Aaa"}, {c13IbcUp, strings.ToLower(c13IbcUp)}, {c13IbcUp[:12], c13IbcUp[:13]},
+		{c13IbcUp[:13], c13IbcUp}, {"fac/T.k-n1", "Fac/T.k-n1"}, {c13Long128, c13Long128[:127]}}
+	pair := sib[r.Intn(len(sib))]
+	e.assets = append(e.assets, pair...)
+	for {
+		d := c13SpecialAssets[r.Intn(len(c13SpecialAssets))]
+		if d != pair[0] && d != pair[1] {
+			e.assets = append(e.assets, d)
+			break
+		}
+	}
+}
+
+// pickAsset: half of the orders use a base denom (so that settlements and long listings stay frequent).
+func (e *c13Env) pickAsset() string {
+	if e.r.Intn(2) == 0 {
+		return c13BaseAssets[e.r.Intn(len(c13BaseAssets))]
+	}
+	return e.assets[e.r.Intn(len(e.assets))]
+}
+
+// probeDenoms: the denoms whose by-asset listing is asked after every step: the denoms in use,
+// their other-case spellings (different denoms: must list nothing of the original), proper
+// prefixes and extensions.
+func (e *c13Env) probeDenoms() []string {
+	out := append([]string{}, e.assets...)
+	seen := map[string]bool{}
+	for _, d := range out {
+		seen[d] = true
+	}
+	add := func(d string) {
+		if !seen[d] && sdk.ValidateDenom(d) == nil {
+			seen[d] = true
+			out = append(out, d)
+		}
+	}
+	for _, d := range e.assets[3:] {
+		add(strings.ToLower(d))
+		add(strings.ToUpper(d[:1]) + d[1:])
+		add(d[:len(d)-1])
+	}
+	add("aaabb")
+	add("AAA")
+	add("aaA")
+	return out
+}
+
+func (e *c13Env) denomTerm(d string) string {
+	if v, ok := e.dnames[d]; ok {
+		return v
+	}
+	return c13Str(d)
+}
+
+// ---- address spellings ----
+// bech32 strings decode in all-lower-case and in ALL-UPPER-CASE; both name the same account.
+func c13Upper(bech string) string { return strings.ToUpper(bech) }
+func c13IsUpper(bech string) bool {
+	return bech != "" && bech == strings.ToUpper(bech) && bech != strings.ToLower(bech)
+}
+func c13Canon(bech string) string { return strings.ToLower(bech) }
+
+// respell returns the address in a random spelling (upper case one time in three).
+func (e *c13Env) respell(bech string) string {
+	if bech != "" && e.r.Intn(3) == 0 {
+		e.w.Count("requests_with_upper_case_address")
+		return c13Upper(c13Canon(bech))
+	}
+	return c13Canon(bech)
 }
 
 type c13Freed struct {
@@ -92,10 +212,10 @@ func (e *c13Env) noteFreed(before, after []c13Order) {
 }
 
 // c13Coins prints sdk.Coins (in the order given) as a Coq [coins] term.
-func c13Coins(cs sdk.Coins) string {
+func (e *c13Env) coinsTerm(cs sdk.Coins) string {
 	parts := make([]string, len(cs))
 	for i, c := range cs {
-		parts[i] = fmt.Sprintf("(%s, %s)", c13Str(c.Denom), c13Z(c.Amount.Int64()))
+		parts[i] = fmt.Sprintf("(%s, %s)", e.denomTerm(c.Denom), c13Z(c.Amount.Int64()))
 	}
 	return "[" + strings.Join(parts, ";") + "]"
 }
@@ -109,19 +229,18 @@ type c13Commit struct {
 func (e *c13Env) entriesTerm(es []exchange.AccountAmount) string {
 	parts := make([]string, len(es))
 	for i, x := range es {
-		parts[i] = fmt.Sprintf("(%s, %s)", e.addrVar(x.Account), c13Coins(x.Amount))
+		parts[i] = fmt.Sprintf("(%s, %s)", e.addrVar(x.Account), e.coinsTerm(x.Amount))
 	}
 	return "[" + strings.Join(parts, ";") + "]"
 }
 
-var c13Assets = []string{"aaa", "aaab", "bbb"}
 var c13ExtPool = []string{"x", "y", "x1", "zz", "xy"}
 
 func (e *c13Env) addrVar(bech string) string {
 	if bech == "" {
 		return "[]"
 	}
-	if v, ok := e.names[bech]; ok {
+	if v, ok := e.names[c13Canon(bech)]; ok {
 		return v
 	}
 	a, err := sdk.AccAddressFromBech32(bech)
@@ -139,28 +258,47 @@ type c13Order struct {
 	asset  string
 	amount int64
 	ext    string
+	price  string // price denom (Go side only: settlements need matching price denoms)
+	ownerStr string // the owner string as stored (either spelling; CancelOrder compares the signer with it)
 }
 
 func c13Project(o *exchange.Order) c13Order {
 	a := o.GetAssets()
-	return c13Order{id: o.OrderId, bid: o.IsBidOrder(), market: o.GetMarketID(), owner: o.GetOwner(), asset: a.Denom,
-		amount: a.Amount.Int64(), ext: o.GetExternalID()}
+	return c13Order{id: o.OrderId, bid: o.IsBidOrder(), market: o.GetMarketID(), owner: c13Canon(o.GetOwner()), asset: a.Denom,
+		amount: a.Amount.Int64(), ext: o.GetExternalID(), price: o.GetPrice().Denom, ownerStr: o.GetOwner()}
 }
 
 func (e *c13Env) orderTerm(o c13Order) string {
-	return fmt.Sprintf("(O %s %d %s %s %s %s)", coqBool(o.bid), o.market, e.addrVar(o.owner), c13Str(o.asset), c13Z(o.amount), c13Str(o.ext))
+	return fmt.Sprintf("(O %s %d %s %s %s %s)", coqBool(o.bid), o.market, e.addrVar(o.owner), e.denomTerm(o.asset), c13Z(o.amount), c13Str(o.ext))
 }
 
+// src / tgt are the canonical (lower-case) strings; srcUp / tgtUp say that the stored string is
+// the upper-case spelling.
 type c13Pay struct {
 	src, ext, tgt string
+	srcUp, tgtUp  bool
 	amount        int64
 }
 
+func (p c13Pay) srcStr() string {
+	if p.srcUp {
+		return c13Upper(p.src)
+	}
+	return p.src
+}
+func (p c13Pay) tgtStr() string {
+	if p.tgtUp {
+		return c13Upper(p.tgt)
+	}
+	return p.tgt
+}
+
 func c13ProjectPay(p *exchange.Payment) c13Pay {
-	return c13Pay{src: p.Source, ext: p.ExternalId, tgt: p.Target, amount: p.SourceAmount.AmountOf("bbb").Int64()}
+	return c13Pay{src: c13Canon(p.Source), srcUp: c13IsUpper(p.Source), ext: p.ExternalId, tgt: c13Canon(p.Target), tgtUp: c13IsUpper(p.Target),
+		amount: p.SourceAmount.AmountOf("bbb").Int64()}
 }
 func (e *c13Env) payTerm(p c13Pay) string {
-	return fmt.Sprintf("(P %s %s %s %s)", e.addrVar(p.src), c13Str(p.ext), e.addrVar(p.tgt), c13Z(p.amount))
+	return fmt.Sprintf("(P %s %s %s %s %s %s)", e.addrVar(p.src), coqBool(p.srcUp), c13Str(p.ext), e.addrVar(p.tgt), coqBool(p.tgtUp), c13Z(p.amount))
 }
 func (e *c13Env) paysTerm(ps []*exchange.Payment) string {
 	parts := make([]string, len(ps))
@@ -186,7 +324,9 @@ func (e *c13Env) epTerm(ep c13Endpoint) string {
 	case "owner":
 		return "(EOwner " + e.addrVar(ep.addr) + ")"
 	case "asset":
-		return "(EAsset " + c13Str(ep.denom) + ")"
+		return "(EAsset " + e.denomTerm(ep.denom) + ")"
+	case "markets":
+		return "EMarkets"
 	case "all":
 		return "EAll"
 	case "paysrc":
@@ -211,6 +351,7 @@ type c13Page struct {
 	orders []*exchange.Order
 	pays   []*exchange.Payment
 	coms   []c13Commit
+	mkts   []uint32
 	next   []byte
 	total  uint64
 }
@@ -264,6 +405,15 @@ func (e *c13Env) callPage(ctx sdk.Context, ep c13Endpoint, otype string, after u
 			}
 			for _, c := range r.Commitments {
 				pg.coms = append(pg.coms, c13Commit{market: ep.market, acct: c.Account, amount: c.Amount})
+			}
+			pr2 = r.Pagination
+		case "markets":
+			r, err := e.qs.GetAllMarkets(ctx, &exchange.QueryGetAllMarketsRequest{Pagination: pr})
+			if err != nil {
+				return err
+			}
+			for _, b := range r.Markets {
+				pg.mkts = append(pg.mkts, b.MarketId)
 			}
 			pr2 = r.Pagination
 		case "commitall":
@@ -330,7 +480,10 @@ func (e *c13Env) itemsTerm(pg c13Page) string {
 		parts = append(parts, "IP "+e.addrVar(p.Source)+" "+c13Str(p.ExternalId))
 	}
 	for _, c := range pg.coms {
-		parts = append(parts, fmt.Sprintf("IC %d %s %s", c.market, e.addrVar(c.acct), c13Coins(c.amount)))
+		parts = append(parts, fmt.Sprintf("IC %d %s %s", c.market, e.addrVar(c.acct), e.coinsTerm(c.amount)))
+	}
+	for _, m := range pg.mkts {
+		parts = append(parts, fmt.Sprintf("IM %d", m))
 	}
 	return "[" + strings.Join(parts, ";") + "]"
 }
@@ -425,13 +578,13 @@ func (e *c13Env) observe(ctx sdk.Context, maxID uint64, extra *int) (string, c13
 		mk = append(mk, fmt.Sprintf("(%d, %s)", m, c13Ids(list(c13Endpoint{kind: "market", market: m}))))
 	}
 	for _, a := range append(append([]sdk.AccAddress{}, e.owners...), e.admin) {
-		ow = append(ow, fmt.Sprintf("(%s, %s)", e.addrVar(a.String()), c13Ids(list(c13Endpoint{kind: "owner", addr: a.String()}))))
+		ow = append(ow, fmt.Sprintf("(%s, %s)", e.addrVar(a.String()), c13Ids(list(c13Endpoint{kind: "owner", addr: e.respell(a.String())}))))
 	}
-	for _, d := range append(append([]string{}, c13Assets...), "aa", "bb", "aaabb") {
-		as = append(as, fmt.Sprintf("(%s, %s)", c13Str(d), c13Ids(list(c13Endpoint{kind: "asset", denom: d}))))
+	for _, d := range e.probeDenoms() {
+		as = append(as, fmt.Sprintf("(%s, %s)", e.denomTerm(d), c13Ids(list(c13Endpoint{kind: "asset", denom: d}))))
 	}
 	for _, m := range e.markets {
-		for _, x := range c13ExtPool {
+		for _, x := range append(append([]string{}, c13ExtPool...), strings.Repeat("h", 100), strings.Repeat("f", 100)) {
 			var id uint64
 			okk := false
 			_ = try(func() error {
@@ -455,14 +608,14 @@ func (e *c13Env) observe(ctx sdk.Context, maxID uint64, extra *int) (string, c13
 	}
 	var ps, pt, pgs []string
 	for _, a := range append(append([]sdk.AccAddress{}, e.owners...), e.admin) {
-		ps = append(ps, fmt.Sprintf("(%s, %s)", e.addrVar(a.String()), e.paysTerm(e.callPage(ctx, c13Endpoint{kind: "paysrc", addr: a.String()}, "", 0, big).pays)))
-		pt = append(pt, fmt.Sprintf("(%s, %s)", e.addrVar(a.String()), e.paysTerm(e.callPage(ctx, c13Endpoint{kind: "paytgt", addr: a.String()}, "", 0, big).pays)))
+		ps = append(ps, fmt.Sprintf("(%s, %s)", e.addrVar(a.String()), e.paysTerm(e.callPage(ctx, c13Endpoint{kind: "paysrc", addr: e.respell(a.String())}, "", 0, big).pays)))
+		pt = append(pt, fmt.Sprintf("(%s, %s)", e.addrVar(a.String()), e.paysTerm(e.callPage(ctx, c13Endpoint{kind: "paytgt", addr: e.respell(a.String())}, "", 0, big).pays)))
 	}
 	for _, a := range e.owners {
 		for _, x := range append([]string{""}, c13ExtPool[:3]...) {
 			var p *exchange.Payment
 			err := try(func() error {
-				r, err := e.qs.GetPayment(ctx, &exchange.QueryGetPaymentRequest{Source: a.String(), ExternalId: x})
+				r, err := e.qs.GetPayment(ctx, &exchange.QueryGetPaymentRequest{Source: e.respell(a.String()), ExternalId: x})
 				if err == nil {
 					p = r.Payment
 				}
@@ -508,7 +661,7 @@ func (e *c13Env) observe(ctx sdk.Context, maxID uint64, extra *int) (string, c13
 	}
 	// commitments
 	comTerm := func(c c13Commit) string {
-		return fmt.Sprintf("(%d, %s, %s)", c.market, e.addrVar(c.acct), c13Coins(c.amount))
+		return fmt.Sprintf("(%d, %s, %s)", c.market, e.addrVar(c.acct), e.coinsTerm(c.amount))
 	}
 	call := e.callPage(ctx, c13Endpoint{kind: "commitall"}, "", 0, big)
 	view.commits = call.coms
@@ -521,7 +674,7 @@ func (e *c13Env) observe(ctx sdk.Context, maxID uint64, extra *int) (string, c13
 		pg := e.callPage(ctx, c13Endpoint{kind: "commitmkt", market: m}, "", 0, big)
 		var l []string
 		for _, c := range pg.coms {
-			l = append(l, fmt.Sprintf("(%s, %s)", e.addrVar(c.acct), c13Coins(c.amount)))
+			l = append(l, fmt.Sprintf("(%s, %s)", e.addrVar(c.acct), e.coinsTerm(c.amount)))
 		}
 		cm = append(cm, fmt.Sprintf("(%d, %s)", m, j(l)))
 	}
@@ -533,7 +686,7 @@ func (e *c13Env) observe(ctx sdk.Context, maxID uint64, extra *int) (string, c13
 				return err
 			}
 			for _, c := range r.Commitments {
-				l = append(l, fmt.Sprintf("(%d, %s)", c.MarketId, c13Coins(c.Amount)))
+				l = append(l, fmt.Sprintf("(%d, %s)", c.MarketId, e.coinsTerm(c.Amount)))
 			}
 			return nil
 		})
@@ -549,7 +702,7 @@ func (e *c13Env) observe(ctx sdk.Context, maxID uint64, extra *int) (string, c13
 				}
 				return err
 			})
-			cg = append(cg, fmt.Sprintf("(%d, %s, %s)", m, e.addrVar(a.String()), c13Coins(amt)))
+			cg = append(cg, fmt.Sprintf("(%d, %s, %s)", m, e.addrVar(a.String()), e.coinsTerm(amt)))
 		}
 	}
 	term := fmt.Sprintf("{| ob_probed := %s; ob_orders := %s; ob_mismatch := %d; ob_all := %s;\n      ob_mkt := %s;\n      ob_own := %s;\n      ob_asset := %s;\n      ob_ext := %s;\n      ob_pays := %s;\n      ob_psrc := %s;\n      ob_ptgt := %s;\n      ob_pget := %s;\n      ob_markets := %s; ob_mnames := %s;\n      ob_commits := %s;\n      ob_cmkt := %s;\n      ob_cacct := %s;\n      ob_cget := %s |}",
@@ -570,15 +723,15 @@ func (e *c13Env) checkpoint(ctx sdk.Context, view c13View, full bool, mism *int)
 	for _, a := range e.owners {
 		eps = append(eps, c13Endpoint{kind: "owner", addr: a.String()})
 	}
-	for _, d := range c13Assets {
+	for _, d := range e.assets {
 		eps = append(eps, c13Endpoint{kind: "asset", denom: d})
 	}
 	nOrderEps := len(eps) // market, owner and asset listings (filteredPaginateAfterOrder)
 	eps = append(eps, c13Endpoint{kind: "all"}, c13Endpoint{kind: "payall"})
 	for _, a := range e.owners {
-		eps = append(eps, c13Endpoint{kind: "paysrc", addr: a.String()}, c13Endpoint{kind: "paytgt", addr: a.String()})
+		eps = append(eps, c13Endpoint{kind: "paysrc", addr: e.respell(a.String())}, c13Endpoint{kind: "paytgt", addr: e.respell(a.String())})
 	}
-	eps = append(eps, c13Endpoint{kind: "commitall"})
+	eps = append(eps, c13Endpoint{kind: "commitall"}, c13Endpoint{kind: "markets"})
 	for _, m := range view.markets {
 		eps = append(eps, c13Endpoint{kind: "commitmkt", market: m})
 	}
@@ -593,7 +746,7 @@ func (e *c13Env) checkpoint(ctx sdk.Context, view c13View, full bool, mism *int)
 			}
 		case "owner":
 			for _, o := range view.orders {
-				if o.owner == ep.addr {
+				if o.owner == c13Canon(ep.addr) {
 					n++
 				}
 			}
@@ -607,16 +760,18 @@ func (e *c13Env) checkpoint(ctx sdk.Context, view c13View, full bool, mism *int)
 			n = len(view.orders)
 		case "paysrc":
 			for _, p := range view.pays {
-				if p.src == ep.addr {
+				if p.src == c13Canon(ep.addr) {
 					n++
 				}
 			}
 		case "paytgt":
 			for _, p := range view.pays {
-				if p.tgt == ep.addr {
+				if p.tgt == c13Canon(ep.addr) {
 					n++
 				}
 			}
+		case "markets":
+			n = len(view.markets)
 		case "commitall":
 			n = len(view.commits)
 		case "commitmkt":
@@ -666,15 +821,38 @@ func (e *c13Env) checkpoint(ctx sdk.Context, view c13View, full bool, mism *int)
 		combo{ep: c13Endpoint{kind: "asset", denom: "aaa"}, reverse: r.Intn(2) == 0, keymode: r.Intn(2) == 0, otype: []string{"", "ask", "bid"}[r.Intn(3)]},
 		combo{ep: eps[r.Intn(nOrderEps)], after: c13Max, reverse: true, keymode: r.Intn(2) == 0},
 		combo{ep: eps[r.Intn(nOrderEps)], after: c13Max, reverse: false, keymode: r.Intn(2) == 0},
-		combo{ep: c13Endpoint{kind: "paysrc", addr: e.owners[r.Intn(len(e.owners))].String()}, reverse: true, keymode: r.Intn(2) == 0},
+		combo{ep: c13Endpoint{kind: "paysrc", addr: e.respell(e.owners[r.Intn(len(e.owners))].String())}, reverse: true, keymode: r.Intn(2) == 0},
+		// the market listing (query.FilteredPaginate over the known market ids)
+		combo{ep: c13Endpoint{kind: "markets"}, reverse: r.Intn(2) == 0, keymode: r.Intn(2) == 0},
 	)
+	// a by-asset listing of a special denom (upper case / punctuation / case twin / prefix / 128
+	// characters), preferably one that has open orders, with a type filter at random
+	{
+		special := e.assets[3:]
+		d := special[r.Intn(len(special))]
+		for _, o := range view.orders {
+			if o.asset != "aaa" && o.asset != "aaab" && o.asset != "bbb" && r.Intn(2) == 0 {
+				d = o.asset
+				break
+			}
+		}
+		combos = append(combos, combo{ep: c13Endpoint{kind: "asset", denom: d}, reverse: r.Intn(2) == 0, keymode: r.Intn(2) == 0, otype: []string{"", "", "ask", "bid"}[r.Intn(4)]})
+		e.w.Count("sessions_on_special_denom_listing")
+	}
+	// a payments-with-target listing of an account that is the target of some payment
+	if len(view.pays) > 0 {
+		p := view.pays[r.Intn(len(view.pays))]
+		if p.tgt != "" {
+			combos = append(combos, combo{ep: c13Endpoint{kind: "paytgt", addr: e.respell(p.tgt)}, reverse: r.Intn(2) == 0, keymode: r.Intn(2) == 0})
+		}
+	}
 	// after-order bound INSIDE a listing, small pages, so that later pages reach the bound: the
 	// bound is the id of an entry of the endpoint's own listing with at least two entries above it
 	// (and, when possible, some below); reverse key paging first, the other modes at random
 	idsOf := func(ep c13Endpoint, otype string) []uint64 {
 		var ids []uint64
 		for _, o := range view.orders {
-			if (ep.kind == "market" && o.market != ep.market) || (ep.kind == "owner" && o.owner != ep.addr) || (ep.kind == "asset" && o.asset != ep.denom) {
+			if (ep.kind == "market" && o.market != ep.market) || (ep.kind == "owner" && o.owner != c13Canon(ep.addr)) || (ep.kind == "asset" && o.asset != ep.denom) {
 				continue
 			}
 			if (otype == "ask" && o.bid) || (otype == "bid" && !o.bid) {
@@ -728,17 +906,20 @@ func (e *c13Env) checkpoint(ctx sdk.Context, view c13View, full bool, mism *int)
 	}
 	// the commitment listings: the market holding the most commitments, or all of them
 	if len(view.commits) > 0 {
-		cep := c13Endpoint{kind: "commitall"}
-		if r.Intn(3) != 0 {
-			cep = c13Endpoint{kind: "commitmkt", market: view.commits[r.Intn(len(view.commits))].market}
-		}
-		combos = append(combos, combo{ep: cep, reverse: r.Intn(2) == 0, keymode: r.Intn(2) == 0})
+		// both commitment listings, in one direction / mode each (the other ones at other checkpoints)
+		combos = append(combos, combo{ep: c13Endpoint{kind: "commitall"}, reverse: r.Intn(2) == 0, keymode: r.Intn(2) == 0},
+			combo{ep: c13Endpoint{kind: "commitmkt", market: view.commits[r.Intn(len(view.commits))].market}, reverse: r.Intn(2) == 0, keymode: r.Intn(2) == 0})
 	}
 	// GetAllOrders (query.FilteredPaginate) in the mode and direction not drawn above
 	if full || r.Intn(3) == 0 {
 		combos = append(combos, combo{ep: c13Endpoint{kind: "all"}, reverse: r.Intn(2) == 0, keymode: r.Intn(2) == 0})
 	}
-	for _, c := range combos {
+	for ci, c := range combos {
+		// at the final checkpoint of a history every shape is paged; at the others the scripted
+		// shapes (everything after the random ones) are thinned out to one in two
+		if !full && ci >= ncombo && r.Intn(2) == 0 {
+			continue
+		}
 		n := count(c.ep)
 		if n > 6 {
 			n = 6
@@ -765,9 +946,19 @@ func (e *c13Env) checkpoint(ctx sdk.Context, view c13View, full bool, mism *int)
 		}
 		out = append(out, e.session(ctx, ep, []string{"ask", "bid", ""}[r.Intn(3)], after, c13Max, i == 0, r.Intn(3) != 0, r.Intn(2) == 0, 4, mism))
 	}
-	// ... and on one of the SDK-paginated listings (all orders, payments, commitments)
+	// ... and on one of the SDK-paginated listings (all orders, payments, commitments, markets)
 	ep = eps[nOrderEps+r.Intn(len(eps)-nOrderEps)]
 	out = append(out, e.session(ctx, ep, "", 0, c13Max, r.Intn(2) == 0, r.Intn(2) == 0, r.Intn(2) == 0, 4, mism))
+	// the boundary limits on the market and commitment listings: 0 (default 100 + count_total) and
+	// 2^64-1, offset mode (key = nil, offset 0: C13_max_limit_sdk_*), either direction
+	for _, bep := range []c13Endpoint{{kind: "markets"}, {kind: "commitall"}} {
+		if bep.kind == "commitall" && len(view.commits) > 0 && r.Intn(2) == 0 {
+			bep = c13Endpoint{kind: "commitmkt", market: view.commits[r.Intn(len(view.commits))].market}
+		}
+		lim := []uint64{0, c13Max}[r.Intn(2)]
+		out = append(out, e.session(ctx, bep, "", 0, lim, r.Intn(2) == 0, false, r.Intn(2) == 0, 4, mism))
+		e.w.Count("sessions_boundary_limit_markets_commitments")
+	}
 	return out
 }
 
@@ -775,7 +966,7 @@ func (e *c13Env) checkpoint(ctx sdk.Context, view c13View, full bool, mism *int)
 
 func TestC13(t *testing.T) {
 	r := newRand("C13")
-	w := NewCaseWriter("C13", "PV.Corr.C13", "check_all", 4)
+	w := NewCaseWriter("C13", "PV.Corr.C13", "check_all", 3)
 	app, baseCtx := newApp(t)
 	e := &c13Env{t: t, r: r, w: w, qs: keeper.NewQueryServer(app.ExchangeKeeper), admin: addrN(1), names: map[string]string{}, shapes: map[string]bool{}, auth: app.ExchangeKeeper.GetAuthority()}
 	e.owners = []sdk.AccAddress{addrN(2), addrN(3), addrN(4)}
@@ -783,7 +974,30 @@ func TestC13(t *testing.T) {
 	for i, a := range e.owners {
 		e.names[a.String()] = fmt.Sprintf("A%d", i+1)
 	}
-	rich := sdk.NewCoins(sdk.NewInt64Coin("aaa", 1_000_000_000), sdk.NewInt64Coin("aaab", 1_000_000_000), sdk.NewInt64Coin("bbb", 1_000_000_000), sdk.NewInt64Coin("pricecoin", 1_000_000_000))
+	e.dnames = map[string]string{}
+	var rich sdk.Coins
+	for i, d := range c13AllDenoms() {
+		if err := sdk.ValidateDenom(d); err != nil {
+			t.Fatalf("denom %q is not legal: %v", d, err)
+		}
+		e.dnames[d] = fmt.Sprintf("D%d", i)
+		rich = rich.Add(sdk.NewInt64Coin(d, 1_000_000_000))
+	}
+	if len(c13Long128) != 128 {
+		t.Fatalf("the long denom has %d characters", len(c13Long128))
+	}
+	e.hold = func(ctx sdk.Context, addr sdk.AccAddress, amt sdk.Coins) error {
+		return app.HoldKeeper.AddHold(ctx, addr, amt, "c13 genesis")
+	}
+	e.initGen = func(ctx sdk.Context, gs *exchange.GenesisState) error {
+		return try(func() error {
+			if err := gs.Validate(); err != nil {
+				return err
+			}
+			app.ExchangeKeeper.InitGenesis(ctx, gs)
+			return nil
+		})
+	}
 	for _, a := range append(append([]sdk.AccAddress{}, e.owners...), e.admin) {
 		ensureAccount(app, baseCtx, a)
 		fund(t, app, baseCtx, a, rich)
@@ -809,13 +1023,24 @@ func TestC13(t *testing.T) {
 	nHist := scale(36, 300)
 	for hi := 0; hi < nHist; hi++ {
 		ctx, _ := baseCtx.CacheContext()
-		nSteps := 20 + r.Intn(14)
+		nSteps := 22 + r.Intn(14)
 		// a third of the histories page after EVERY step, the others after one step in five
 		everyStep := hi%3 == 0
 		e.markets = nil
 		e.nameCtr = 0
 		e.forced = []string{"mcreate-auto", "mcreate-auto"}
 		e.freed = nil
+		e.x100Mkt = 0
+		e.pickAssets()
+		// orders on the special denoms of this history (both siblings), in every history
+		e.forced = append(e.forced, "special-a", "special-b", "special-c")
+		if hi%3 == 1 {
+			// a target stored in upper case is "changed" to the same account: old and new index key coincide
+			e.forced = append(e.forced, "pay-up-target", "pay-respell")
+		}
+		if hi%3 == 2 {
+			e.forced = append(e.forced, "pay-up-source")
+		}
 		if hi%6 == 2 || hi%6 == 5 {
 			// an external id is given up (changed or cleared, the order then cancelled or not)
 			// and taken again by ANOTHER order of the same market, by creation and by set-external-id
@@ -828,7 +1053,7 @@ func TestC13(t *testing.T) {
 		if hi%6 == 0 {
 			// shapes that must occur in every run: an external id of exactly 100 bytes, a source
 			// with an empty-external-id payment next to another one, a 100-byte payment id
-			e.forced = append(e.forced, "create-ext100", "pay-empty", "pay-x", "pay-ext100")
+			e.forced = append(e.forced, "create-ext100", "create-ext100-dup", "pay-empty", "pay-x", "pay-ext100")
 		}
 		if hi%6 == 1 {
 			// an explicit id exactly where the automatic counter stands, then automatic creations,
@@ -838,90 +1063,11 @@ func TestC13(t *testing.T) {
 		if hi%6 == 3 {
 			e.forced = append(e.forced, "acct-squat-next", "mcreate-auto", "mcreate-explicit", "mcreate-dup", "commit", "commit", "settle")
 		}
-		var steps []string
-		var descOps []string
-		var view c13View
-		maxID := uint64(0)
-		accepted := 0
-		for si := 0; si < nSteps; si++ {
-			opTerm, desc, kind, run := e.genOp(ctx, view, maxID)
-			before := maxID
-			marketsBefore := append([]uint32{}, view.markets...)
-			err := run()
-			ok := err == nil
-			created := "None"
-			if ok && kind == "OCreate" {
-				// the id handed out = the largest id now present
-				r2, _ := e.qs.GetAllOrders(ctx, &exchange.QueryGetAllOrdersRequest{Pagination: &query.PageRequest{Limit: 1, Reverse: true}})
-				if r2 != nil && len(r2.Orders) == 1 && r2.Orders[0].OrderId > before {
-					maxID = r2.Orders[0].OrderId
-					created = fmt.Sprintf("(Some %d)", maxID)
-				}
-			}
-			w.Count("ops")
-			w.Count("op_" + kind)
-			if ok {
-				accepted++
-				w.Count("ops_accepted")
-				w.Count("ok_" + kind)
-			} else {
-				w.Count("ops_rejected")
-			}
-			mism := 0
-			var sess []string
-			// decide on a checkpoint before observing so that its mismatch count is included
-			doCp := si >= 2 && (si == nSteps-1 || everyStep || r.Intn(5) == 0)
-			var obsTerm string
-			ordersBefore := view.orders
-			obsTerm, view = e.observe(ctx, maxID, &mism)
-			e.noteFreed(ordersBefore, view.orders)
-			if ok && kind == "CMarketCreate" {
-				// the id handed out = the market id that was not listed before
-				for _, m := range view.markets {
-					isNew := true
-					for _, b := range marketsBefore {
-						if b == m {
-							isNew = false
-						}
-					}
-					if isNew {
-						created = fmt.Sprintf("(Some %d)", m)
-						if len(e.markets) < 2 {
-							e.markets = append(e.markets, m)
-						}
-					}
-				}
-			}
-			if doCp {
-				m2 := 0
-				sess = e.checkpoint(ctx, view, si == nSteps-1, &m2)
-				if m2 > 0 {
-					mism = m2
-					obsTerm, view = e.observe(ctx, maxID, &mism)
-				}
-				w.Count("checkpoints")
-			}
-			w.CountN("hist_ext100_orders", int64(c13CountExt100(view)))
-			w.CountN("hist_empty_ext_payments", int64(c13CountEmptyPay(view)))
-			steps = append(steps, fmt.Sprintf("St (%s) %s %s\n    %s\n    [%s]", opTerm, coqBool(ok), created, obsTerm, strings.Join(sess, ";\n     ")))
-			d := fmt.Sprintf("%d: %s ok=%v", si, desc, ok)
-			if err != nil {
-				msg := err.Error()
-				if len(msg) > 160 {
-					msg = msg[:160]
-				}
-				d += " (" + msg + ")"
-			}
-			descOps = append(descOps, d)
-		}
+		steps, descOps, view, accepted := e.runSteps(ctx, nSteps, everyStep, c13View{}, 0)
 		if everyStep {
 			w.Count("histories_paged_after_every_step")
 		}
-		var lets strings.Builder
-		for _, a := range append(append([]sdk.AccAddress{}, e.owners...), e.admin) {
-			fmt.Fprintf(&lets, "let %s := %s in ", e.names[a.String()], c13Bytes(a))
-		}
-		term := "(" + lets.String() + "CHist [\n  " + strings.Join(steps, ";\n  ") + "])%N"
+		term := "(" + e.lets() + "CHist [\n  " + strings.Join(steps, ";\n  ") + "])%N"
 		w.Add(term, map[string]any{"history": hi, "steps": descOps, "open_orders_at_end": len(view.orders), "payments_at_end": len(view.pays),
 			"commitments_at_end": len(view.commits), "markets_at_end": len(view.markets), "paged_after_every_step": everyStep})
 		if accepted > 0 && len(view.orders)+len(view.pays)+len(view.commits) > 0 {
@@ -929,7 +1075,108 @@ func TestC13(t *testing.T) {
 		}
 		w.CountN("history_len_total", int64(nSteps))
 	}
+	c13GenesisCases(t, e, baseCtx)
+	w.Require += e.preamble()
 	w.Flush(t)
+}
+
+// runSteps generates and performs [nSteps] operations from the state seen in [view] (maxID = the
+// largest order id handed out so far), observing after every step.
+func (e *c13Env) runSteps(ctx sdk.Context, nSteps int, everyStep bool, view c13View, maxID uint64) ([]string, []string, c13View, int) {
+	r, w := e.r, e.w
+	var steps []string
+	var descOps []string
+	accepted := 0
+	for si := 0; si < nSteps; si++ {
+		opTerm, desc, kind, run := e.genOp(ctx, view, maxID)
+		before := maxID
+		marketsBefore := append([]uint32{}, view.markets...)
+		err := run()
+		ok := err == nil
+		created := "None"
+		if ok && kind == "OCreate" {
+			// the id handed out = the largest id now present
+			r2, _ := e.qs.GetAllOrders(ctx, &exchange.QueryGetAllOrdersRequest{Pagination: &query.PageRequest{Limit: 1, Reverse: true}})
+			if r2 != nil && len(r2.Orders) == 1 && r2.Orders[0].OrderId > before {
+				maxID = r2.Orders[0].OrderId
+				created = fmt.Sprintf("(Some %d)", maxID)
+			}
+		}
+		w.Count("ops")
+		w.Count("op_" + kind)
+		if ok {
+			accepted++
+			w.Count("ops_accepted")
+			w.Count("ok_" + kind)
+		} else {
+			w.Count("ops_rejected")
+		}
+		mism := 0
+		var sess []string
+		// decide on a checkpoint before observing so that its mismatch count is included
+		doCp := si >= 2 && (si == nSteps-1 || everyStep || r.Intn(5) == 0)
+		var obsTerm string
+		ordersBefore := view.orders
+		obsTerm, view = e.observe(ctx, maxID, &mism)
+		e.noteFreed(ordersBefore, view.orders)
+		if ok && kind == "CMarketCreate" {
+			// the id handed out = the market id that was not listed before
+			for _, m := range view.markets {
+				isNew := true
+				for _, b := range marketsBefore {
+					if b == m {
+						isNew = false
+					}
+				}
+				if isNew {
+					created = fmt.Sprintf("(Some %d)", m)
+					if len(e.markets) < 2 {
+						e.markets = append(e.markets, m)
+					}
+				}
+			}
+		}
+		if doCp {
+			m2 := 0
+			sess = e.checkpoint(ctx, view, si == nSteps-1, &m2)
+			if m2 > 0 {
+				mism = m2
+				obsTerm, view = e.observe(ctx, maxID, &mism)
+			}
+			w.Count("checkpoints")
+		}
+		w.CountN("hist_ext100_orders", int64(c13CountExt100(view)))
+		w.CountN("hist_empty_ext_payments", int64(c13CountEmptyPay(view)))
+		steps = append(steps, fmt.Sprintf("St (%s) %s %s\n    %s\n    [%s]", opTerm, coqBool(ok), created, obsTerm, strings.Join(sess, ";\n     ")))
+		d := fmt.Sprintf("%d: %s ok=%v", si, desc, ok)
+		if err != nil {
+			msg := err.Error()
+			if len(msg) > 160 {
+				msg = msg[:160]
+			}
+			d += " (" + msg + ")"
+		}
+		descOps = append(descOps, d)
+	}
+	return steps, descOps, view, accepted
+}
+
+// lets: the addresses and denoms are bound once per shard (preamble), not per case: type checking
+// a case term under twenty [let]s with long bodies is ten times slower.
+func (e *c13Env) lets() string { return "" }
+
+// preamble returns top-level Coq definitions of the address and denom variables.  CaseWriter has
+// no preamble hook; its Require field is printed as "Require Import <Require>." at the top of every
+// shard, so the definitions ride behind the module name (the last one without its final dot).
+func (e *c13Env) preamble() string {
+	var defs []string
+	for _, a := range append(append([]sdk.AccAddress{}, e.owners...), e.admin) {
+		defs = append(defs, fmt.Sprintf("Definition %s : list N := (%s)%%N", e.names[a.String()], c13Bytes(a)))
+	}
+	for _, d := range c13AllDenoms() {
+		defs = append(defs, fmt.Sprintf("Definition %s : list N := (%s)%%N", e.dnames[d], c13Str(d)))
+	}
+	return ".\nImport ListNotations.\n" + strings.Join(defs, ".\n")
 }
 
 // c13CountExt100 / c13CountEmptyPay: open orders with a 100-byte external id / payments with an
@@ -993,12 +1240,13 @@ func (e *c13Env) genOrderPayOp(ctx sdk.Context, view c13View, maxID uint64) (str
 		return 1
 	}
 	k := r.Intn(100)
-	if len(view.orders) < 3 && k >= 38 && k < 74 {
-		k = r.Intn(38)
+	if len(view.orders) < 3 && k >= 34 && k < 68 {
+		k = r.Intn(34)
 	}
 	switch {
-	case k < 38: // create ask / bid
-		o := c13Order{bid: r.Intn(2) == 0, market: e.markets[r.Intn(len(e.markets))], owner: pickOwner().String(), asset: c13Assets[r.Intn(len(c13Assets))], amount: int64(r.Intn(12) + 1), ext: pickExt()}
+	case k < 34: // create ask / bid
+		o := c13Order{bid: r.Intn(2) == 0, market: e.markets[r.Intn(len(e.markets))], owner: pickOwner().String(), asset: e.pickAsset(), amount: int64(r.Intn(12) + 1), ext: pickExt(),
+			price: c13PriceDenoms[r.Intn(len(c13PriceDenoms))]}
 		if len(e.freed) > 0 && r.Intn(4) == 0 { // an external id that was given up earlier
 			f := e.freed[r.Intn(len(e.freed))]
 			o.market, o.ext = f.market, f.ext
@@ -1013,28 +1261,34 @@ func (e *c13Env) genOrderPayOp(ctx sdk.Context, view c13View, maxID uint64) (str
 			o.amount = 0
 		case 3:
 			o.ext = strings.Repeat("f", 100)
+		case 4: // not a legal denom on this chain
+			o.asset = []string{"aa:a", "aa_a", "1aa", "ab", c13Long128 + "x", "aaa b"}[r.Intn(6)]
+			e.w.Count("creations_with_illegal_denom")
 		}
 		var msg sdk.Msg
 		assets := sdk.Coin{Denom: o.asset, Amount: sdkmath.NewInt(o.amount)}
-		price := sdk.NewInt64Coin("pricecoin", o.amount*3)
+		price := sdk.NewInt64Coin(o.price, o.amount*3)
+		e.countDenom(o.asset, o.price)
+		// the owner string of the message in either spelling (the index key is built from the bytes)
+		ownerStr := e.respell(o.owner)
 		if o.bid {
-			msg = &exchange.MsgCreateBidRequest{BidOrder: exchange.BidOrder{MarketId: o.market, Buyer: o.owner, Assets: assets, Price: price, AllowPartial: true, ExternalId: o.ext}}
+			msg = &exchange.MsgCreateBidRequest{BidOrder: exchange.BidOrder{MarketId: o.market, Buyer: ownerStr, Assets: assets, Price: price, AllowPartial: true, ExternalId: o.ext}}
 		} else {
-			msg = &exchange.MsgCreateAskRequest{AskOrder: exchange.AskOrder{MarketId: o.market, Seller: o.owner, Assets: assets, Price: price, AllowPartial: true, ExternalId: o.ext}}
+			msg = &exchange.MsgCreateAskRequest{AskOrder: exchange.AskOrder{MarketId: o.market, Seller: ownerStr, Assets: assets, Price: price, AllowPartial: true, ExternalId: o.ext}}
 		}
-		return "OCreate " + e.orderTerm(o), fmt.Sprintf("create bid=%v m=%d %s %d%s ext=%q", o.bid, o.market, e.names[o.owner], o.amount, o.asset, c13Short(o.ext)), func() error { return e.handle(ctx, msg) }
-	case k < 50: // cancel
+		return "OCreate " + e.orderTerm(o), fmt.Sprintf("create bid=%v m=%d %s %d%s ext=%q price=%s", o.bid, o.market, e.names[o.owner], o.amount, c13Short(o.asset), c13Short(o.ext), c13Short(o.price)), func() error { return e.handle(ctx, msg) }
+	case k < 45: // cancel
 		id := someID()
 		signer := e.admin.String()
 		for _, o := range view.orders {
 			if o.id == id && r.Intn(2) == 0 {
-				signer = o.owner
+				signer = o.ownerStr
 			}
 		}
 		return fmt.Sprintf("OCancel %d", id), fmt.Sprintf("cancel %d", id), func() error {
 			return e.handle(ctx, &exchange.MsgCancelOrderRequest{Signer: signer, OrderId: id})
 		}
-	case k < 62: // set external id
+	case k < 56: // set external id
 		id := someID()
 		m := e.markets[r.Intn(len(e.markets))]
 		for _, o := range view.orders {
@@ -1059,7 +1313,7 @@ func (e *c13Env) genOrderPayOp(ctx sdk.Context, view c13View, maxID uint64) (str
 		return fmt.Sprintf("OSetExt %d %d %s", m, id, c13Str(x)), fmt.Sprintf("set-ext m=%d id=%d %q", m, id, c13Short(x)), func() error {
 			return e.handle(ctx, &exchange.MsgMarketSetOrderExternalIDRequest{Admin: e.admin.String(), MarketId: m, OrderId: id, ExternalId: x})
 		}
-	case k < 71: // market settlement of one ask with one bid (full or partial)
+	case k < 65: // market settlement of one ask with one bid (full or partial)
 		var asks, bids []c13Order
 		for _, o := range view.orders {
 			if o.bid {
@@ -1072,7 +1326,7 @@ func (e *c13Env) genOrderPayOp(ctx sdk.Context, view c13View, maxID uint64) (str
 		r.Shuffle(len(bids), func(i, j int) { bids[i], bids[j] = bids[j], bids[i] })
 		for _, a := range asks {
 			for _, b := range bids {
-				if a.market != b.market || a.asset != b.asset || a.owner == b.owner {
+				if a.market != b.market || a.asset != b.asset || a.owner == b.owner || a.price != b.price {
 					continue
 				}
 				full := []uint64{}
@@ -1100,7 +1354,7 @@ func (e *c13Env) genOrderPayOp(ctx sdk.Context, view c13View, maxID uint64) (str
 			}
 		}
 		fallthrough
-	case k < 74: // a seller fills bids completely (user settlement)
+	case k < 68: // a seller fills bids completely (user settlement)
 		var bids []c13Order
 		for _, o := range view.orders {
 			if o.bid {
@@ -1112,7 +1366,7 @@ func (e *c13Env) genOrderPayOp(ctx sdk.Context, view c13View, maxID uint64) (str
 			var chosen []c13Order
 			total := int64(0)
 			for _, o := range bids {
-				if o.market == b.market && o.asset == b.asset && (o.id == b.id || r.Intn(2) == 0) && len(chosen) < 3 {
+				if o.market == b.market && o.asset == b.asset && o.price == b.price && (o.id == b.id || r.Intn(2) == 0) && len(chosen) < 3 {
 					chosen = append(chosen, o)
 					total += o.amount
 				}
@@ -1126,7 +1380,7 @@ func (e *c13Env) genOrderPayOp(ctx sdk.Context, view c13View, maxID uint64) (str
 			return fmt.Sprintf("OFill %s None", c13Ids(ids)), fmt.Sprintf("fill-bids %v", ids), func() error { return e.handle(ctx, msg) }
 		}
 		return e.genOrderPayOp(ctx, view, maxID)
-	case k < 77: // close a market (cancels all its orders, releases all its commitments), then let it accept orders again
+	case k < 71: // close a market (cancels all its orders, releases all its commitments), then let it accept orders again
 		m := e.markets[r.Intn(len(e.markets))]
 		if len(view.markets) > 0 && r.Intn(3) == 0 {
 			m = view.markets[r.Intn(len(view.markets))]
@@ -1146,7 +1400,7 @@ func (e *c13Env) genOrderPayOp(ctx sdk.Context, view c13View, maxID uint64) (str
 	}
 	coins := func(n int64) sdk.Coins { return sdk.NewCoins(sdk.NewInt64Coin("bbb", n)) }
 	switch {
-	case k < 87 || len(view.pays) == 0: // create
+	case k < 82 || len(view.pays) == 0: // create
 		src := pickOwner()
 		p := c13Pay{src: src.String(), ext: pickExt(), amount: int64(r.Intn(5) + 1)}
 		if r.Intn(3) == 0 {
@@ -1161,16 +1415,26 @@ func (e *c13Env) genOrderPayOp(ctx sdk.Context, view c13View, maxID uint64) (str
 				}
 			}
 		}
+		// the strings of the message in either spelling: the payment stores them as given
+		p.srcUp = r.Intn(4) == 0
+		p.tgtUp = p.tgt != "" && r.Intn(3) == 0
 		if r.Intn(30) == 0 {
 			p.ext = strings.Repeat("p", 101)
 		}
-		msg := &exchange.MsgCreatePaymentRequest{Payment: exchange.Payment{Source: p.src, SourceAmount: coins(p.amount), Target: p.tgt, ExternalId: p.ext}}
-		return "OPayCreate " + e.payTerm(p), fmt.Sprintf("pay-create %s %q -> %s", e.names[p.src], c13Short(p.ext), e.names[p.tgt]), func() error { return e.handle(ctx, msg) }
-	case k < 90: // accept
+		return e.payCreateOp(ctx, p)
+	case k < 86: // accept: the submitted Source / Target strings must equal the stored ones
 		p, _ := pickPay()
-		tgt := p.tgt
+		tgt, tup, sup := p.tgt, p.tgtUp, p.srcUp
 		if r.Intn(6) == 0 || tgt == "" {
 			tgt = pickOwner().String()
+		}
+		switch r.Intn(8) {
+		case 0:
+			tup = !tup // the same account in the other spelling: refused
+			e.w.Count("accept_with_other_spelling")
+		case 1:
+			sup = !sup
+			e.w.Count("accept_with_other_spelling")
 		}
 		// the submitted amounts always equal the stored ones (the amount comparison of
 		// AcceptPayment is not part of the store model), also when a made-up payment collides
@@ -1179,34 +1443,43 @@ func (e *c13Env) genOrderPayOp(ctx sdk.Context, view c13View, maxID uint64) (str
 				p.amount = q.amount
 			}
 		}
-		msg := &exchange.MsgAcceptPaymentRequest{Payment: exchange.Payment{Source: p.src, SourceAmount: coins(p.amount), Target: tgt, ExternalId: p.ext}}
-		return fmt.Sprintf("OPayTake %s %s %s", e.addrVar(tgt), e.addrVar(p.src), c13Str(p.ext)), fmt.Sprintf("pay-accept %s %q by %s", e.names[p.src], p.ext, e.names[tgt]), func() error { return e.handle(ctx, msg) }
-	case k < 92: // reject one
+		q := c13Pay{src: p.src, srcUp: sup, tgt: tgt, tgtUp: tup}
+		msg := &exchange.MsgAcceptPaymentRequest{Payment: exchange.Payment{Source: q.srcStr(), SourceAmount: coins(p.amount), Target: q.tgtStr(), ExternalId: p.ext}}
+		return fmt.Sprintf("OPayAccept %s %s %s %s %s", e.addrVar(tgt), coqBool(tup), e.addrVar(p.src), coqBool(sup), c13Str(p.ext)), fmt.Sprintf("pay-accept %s(up=%v) %q by %s(up=%v)", e.names[p.src], sup, p.ext, e.names[tgt], tup), func() error { return e.handle(ctx, msg) }
+	case k < 89: // reject one (the message's strings are parsed: their spelling does not matter)
 		p, _ := pickPay()
 		tgt := p.tgt
 		if r.Intn(6) == 0 || tgt == "" {
 			tgt = pickOwner().String()
 		}
-		msg := &exchange.MsgRejectPaymentRequest{Target: tgt, Source: p.src, ExternalId: p.ext}
-		return fmt.Sprintf("OPayTake %s %s %s", e.addrVar(tgt), e.addrVar(p.src), c13Str(p.ext)), fmt.Sprintf("pay-reject %s %q by %s", e.names[p.src], p.ext, e.names[tgt]), func() error { return e.handle(ctx, msg) }
-	case k < 94: // reject all payments of some sources
+		msg := &exchange.MsgRejectPaymentRequest{Target: e.respell(tgt), Source: e.respell(p.src), ExternalId: p.ext}
+		return fmt.Sprintf("OPayTake %s %s %s", e.addrVar(tgt), e.addrVar(p.src), c13Str(p.ext)), fmt.Sprintf("pay-reject %s %q by %s (stored target upper=%v)", e.names[p.src], p.ext, e.names[tgt], p.tgtUp), func() error { return e.handle(ctx, msg) }
+	case k < 93: // reject all payments of some sources
 		p, _ := pickPay()
 		tgt := p.tgt
 		if tgt == "" {
 			tgt = pickOwner().String()
 		}
-		srcs := []string{p.src}
+		srcs := []string{e.respell(p.src)}
 		if r.Intn(2) == 0 {
-			srcs = append(srcs, pickOwner().String())
+			srcs = append(srcs, e.respell(pickOwner().String()))
 		}
-		if r.Intn(4) == 0 {
-			srcs = append(srcs, p.src)
+		switch r.Intn(6) {
+		case 0:
+			srcs = append(srcs, srcs[0]) // the same string twice: ValidateBasic refuses
+		case 1: // the same account in the other spelling: passes ValidateBasic, the keeper skips it
+			if c13IsUpper(srcs[0]) {
+				srcs = append(srcs, c13Canon(srcs[0]))
+			} else {
+				srcs = append(srcs, c13Upper(srcs[0]))
+			}
+			e.w.Count("reject_all_same_source_in_both_spellings")
 		}
 		var st []string
 		for _, s := range srcs {
-			st = append(st, e.addrVar(s))
+			st = append(st, fmt.Sprintf("(%s, %s)", e.addrVar(s), coqBool(c13IsUpper(s))))
 		}
-		msg := &exchange.MsgRejectPaymentsRequest{Target: tgt, Sources: srcs}
+		msg := &exchange.MsgRejectPaymentsRequest{Target: e.respell(tgt), Sources: srcs}
 		return fmt.Sprintf("OPayRejectAll %s [%s]", e.addrVar(tgt), strings.Join(st, ";")), fmt.Sprintf("pay-reject-all by %s of %d sources", e.names[tgt], len(srcs)), func() error { return e.handle(ctx, msg) }
 	case k < 96: // cancel some
 		p, _ := pickPay()
@@ -1226,7 +1499,7 @@ func (e *c13Env) genOrderPayOp(ctx sdk.Context, view c13View, maxID uint64) (str
 		for _, x := range exts {
 			xt = append(xt, c13Str(x))
 		}
-		msg := &exchange.MsgCancelPaymentsRequest{Source: p.src, ExternalIds: exts}
+		msg := &exchange.MsgCancelPaymentsRequest{Source: e.respell(p.src), ExternalIds: exts}
 		return fmt.Sprintf("OPayCancel %s [%s]", e.addrVar(p.src), strings.Join(xt, ";")), fmt.Sprintf("pay-cancel %s %q", e.names[p.src], exts), func() error { return e.handle(ctx, msg) }
 	default: // change target
 		p, _ := pickPay()
@@ -1234,7 +1507,10 @@ func (e *c13Env) genOrderPayOp(ctx sdk.Context, view c13View, maxID uint64) (str
 		switch r.Intn(5) {
 		case 0: // remove the target
 		case 1:
-			nt = p.tgt // unchanged: rejected
+			nt = p.tgt // the same account: refused, unless the stored string is the upper-case spelling
+			if p.tgtUp {
+				e.w.Count("retarget_same_account_respelled")
+			}
 		default:
 			for {
 				tg := pickOwner().String()
@@ -1244,8 +1520,35 @@ func (e *c13Env) genOrderPayOp(ctx sdk.Context, view c13View, maxID uint64) (str
 				}
 			}
 		}
-		msg := &exchange.MsgChangePaymentTargetRequest{Source: p.src, ExternalId: p.ext, NewTarget: nt}
-		return fmt.Sprintf("OPayRetarget %s %s %s", e.addrVar(p.src), c13Str(p.ext), e.addrVar(nt)), fmt.Sprintf("pay-retarget %s %q -> %s", e.names[p.src], p.ext, e.names[nt]), func() error { return e.handle(ctx, msg) }
+		return e.retargetOp(ctx, p, nt)
+	}
+}
+
+func (e *c13Env) payCreateOp(ctx sdk.Context, p c13Pay) (string, string, func() error) {
+	coins := sdk.NewCoins(sdk.NewInt64Coin("bbb", p.amount))
+	if p.srcUp || p.tgtUp {
+		e.w.Count("payments_created_with_upper_case_address")
+	}
+	msg := &exchange.MsgCreatePaymentRequest{Payment: exchange.Payment{Source: p.srcStr(), SourceAmount: coins, Target: p.tgtStr(), ExternalId: p.ext}}
+	return "OPayCreate " + e.payTerm(p), fmt.Sprintf("pay-create %s(up=%v) %q -> %s(up=%v)", e.names[p.src], p.srcUp, c13Short(p.ext), e.names[p.tgt], p.tgtUp), func() error { return e.handle(ctx, msg) }
+}
+
+func (e *c13Env) retargetOp(ctx sdk.Context, p c13Pay, nt string) (string, string, func() error) {
+	msg := &exchange.MsgChangePaymentTargetRequest{Source: e.respell(p.src), ExternalId: p.ext, NewTarget: e.respell(nt)}
+	return fmt.Sprintf("OPayRetarget %s %s %s", e.addrVar(p.src), c13Str(p.ext), e.addrVar(nt)), fmt.Sprintf("pay-retarget %s %q -> %s (stored target %s upper=%v)", e.names[p.src], p.ext, e.names[nt], e.names[p.tgt], p.tgtUp), func() error { return e.handle(ctx, msg) }
+}
+
+func (e *c13Env) countDenom(ds ...string) {
+	for _, d := range ds {
+		if d != strings.ToLower(d) {
+			e.w.Count("orders_with_upper_case_denom")
+		}
+		if len(d) >= 127 {
+			e.w.Count("orders_with_127_128_char_denom")
+		}
+		if strings.ContainsAny(d, "/.-") {
+			e.w.Count("orders_with_punctuation_denom")
+		}
 	}
 }
 
@@ -1274,22 +1577,25 @@ func (e *c13Env) genOp(ctx sdk.Context, view c13View, maxID uint64) (string, str
 func (e *c13Env) genForced(ctx sdk.Context, view c13View, f string) (string, string, func() error) {
 	r := e.r
 	pickOwner := func() sdk.AccAddress { return e.owners[r.Intn(len(e.owners))] }
-	coins := func(n int64) sdk.Coins { return sdk.NewCoins(sdk.NewInt64Coin("bbb", n)) }
 	payCreate := func(p c13Pay) (string, string, func() error) {
-		msg := &exchange.MsgCreatePaymentRequest{Payment: exchange.Payment{Source: p.src, SourceAmount: coins(p.amount), Target: p.tgt, ExternalId: p.ext}}
-		return "XO (OPayCreate " + e.payTerm(p) + ")", fmt.Sprintf("pay-create %s %q -> %s", e.names[p.src], c13Short(p.ext), e.names[p.tgt]), func() error { return e.handle(ctx, msg) }
+		t, d, run := e.payCreateOp(ctx, p)
+		return "XO (" + t + ")", d, run
 	}
-	mkCreate := func(market uint32, ext string) (string, string, func() error) {
-		o := c13Order{bid: r.Intn(2) == 0, market: market, owner: pickOwner().String(), asset: c13Assets[r.Intn(len(c13Assets))], amount: int64(r.Intn(12) + 1), ext: ext}
+	mkCreateD := func(market uint32, ext, asset string, bid bool) (string, string, func() error) {
+		o := c13Order{bid: bid, market: market, owner: pickOwner().String(), asset: asset, amount: int64(r.Intn(12) + 1), ext: ext}
 		assets := sdk.Coin{Denom: o.asset, Amount: sdkmath.NewInt(o.amount)}
 		price := sdk.NewInt64Coin("pricecoin", o.amount*3)
+		e.countDenom(o.asset)
 		var msg sdk.Msg
 		if o.bid {
 			msg = &exchange.MsgCreateBidRequest{BidOrder: exchange.BidOrder{MarketId: o.market, Buyer: o.owner, Assets: assets, Price: price, AllowPartial: true, ExternalId: o.ext}}
 		} else {
 			msg = &exchange.MsgCreateAskRequest{AskOrder: exchange.AskOrder{MarketId: o.market, Seller: o.owner, Assets: assets, Price: price, AllowPartial: true, ExternalId: o.ext}}
 		}
-		return "XO (OCreate " + e.orderTerm(o) + ")", fmt.Sprintf("create bid=%v m=%d %s %d%s ext=%q", o.bid, o.market, e.names[o.owner], o.amount, o.asset, c13Short(o.ext)), func() error { return e.handle(ctx, msg) }
+		return "XO (OCreate " + e.orderTerm(o) + ")", fmt.Sprintf("create bid=%v m=%d %s %d%s ext=%q", o.bid, o.market, e.names[o.owner], o.amount, c13Short(o.asset), c13Short(o.ext)), func() error { return e.handle(ctx, msg) }
+	}
+	mkCreate := func(market uint32, ext string) (string, string, func() error) {
+		return mkCreateD(market, ext, e.pickAsset(), r.Intn(2) == 0)
 	}
 	byExt := func(ext string) (c13Order, bool) {
 		for _, o := range view.orders {
@@ -1345,7 +1651,36 @@ func (e *c13Env) genForced(ctx sdk.Context, view c13View, f string) (string, str
 		if len(e.markets) == 0 {
 			return "", "", nil
 		}
-		return mkCreate(e.markets[r.Intn(len(e.markets))], strings.Repeat("h", 100))
+		e.x100Mkt = e.markets[r.Intn(len(e.markets))]
+		return mkCreate(e.x100Mkt, strings.Repeat("h", 100))
+	case "create-ext100-dup": // the same 100-byte id again in the same market: must be refused
+		if e.x100Mkt == 0 {
+			return "", "", nil
+		}
+		return mkCreate(e.x100Mkt, strings.Repeat("h", 100))
+	case "special-a", "special-b", "special-c":
+		// orders on the sibling denoms of this history (case twins / prefixes / 128 characters):
+		// two on the first sibling, one on the second, so that both listings are non-empty
+		if len(e.markets) == 0 {
+			return "", "", nil
+		}
+		d := e.assets[3]
+		if f == "special-c" {
+			d = e.assets[4]
+		}
+		return mkCreateD(e.markets[r.Intn(len(e.markets))], "", d, f == "special-b")
+	case "pay-up-target": // a payment whose Target is stored in the upper-case spelling ...
+		return payCreate(c13Pay{src: e.owners[2].String(), ext: "respell", tgt: e.owners[0].String(), tgtUp: true, amount: 3})
+	case "pay-respell": // ... is given the SAME account as new target (the keeper gets the lower-case string)
+		t, d, run := e.retargetOp(ctx, c13Pay{src: e.owners[2].String(), ext: "respell", tgt: e.owners[0].String(), tgtUp: true}, e.owners[0].String())
+		e.w.Count("retarget_same_account_respelled")
+		return "XO (" + t + ")", d, run
+	case "pay-up-source": // a payment whose Source is stored in the upper-case spelling
+		return payCreate(c13Pay{src: e.owners[1].String(), srcUp: true, ext: "upsrc", tgt: e.owners[2].String(), tgtUp: r.Intn(2) == 0, amount: 2})
+	case "observe-only": // refused by ValidateBasic and by the model: the step only carries the observation
+		return "XO (OCancel 0)", "observe (cancel of order 0)", func() error {
+			return e.handle(ctx, &exchange.MsgCancelOrderRequest{Signer: e.admin.String(), OrderId: 0})
+		}
 	case "pay-empty":
 		return payCreate(c13Pay{src: e.owners[0].String(), ext: "", tgt: e.owners[1].String(), amount: 2})
 	case "pay-x":
@@ -1481,9 +1816,9 @@ func (e *c13Env) genCommitOp(ctx sdk.Context, view c13View, want string) (string
 	case k < 60: // commit funds
 		m := pickMarket()
 		a := pickOwner()
-		amt := sdk.NewCoins(sdk.NewInt64Coin([]string{"aaa", "aaab", "bbb"}[r.Intn(3)], int64(1+r.Intn(9))))
+		amt := sdk.NewCoins(sdk.NewInt64Coin(e.pickAsset(), int64(1+r.Intn(9))))
 		if r.Intn(3) == 0 {
-			amt = amt.Add(sdk.NewInt64Coin([]string{"aaa", "bbb", "pricecoin"}[r.Intn(3)], int64(1+r.Intn(5))))
+			amt = amt.Add(sdk.NewInt64Coin([]string{"aaa", "bbb", "pricecoin", e.assets[3], e.assets[4]}[r.Intn(5)], int64(1+r.Intn(5))))
 		}
 		switch r.Intn(30) {
 		case 0:
@@ -1494,7 +1829,7 @@ func (e *c13Env) genCommitOp(ctx sdk.Context, view c13View, want string) (string
 			amt = sdk.Coins{sdk.Coin{Denom: "aaa", Amount: sdkmath.ZeroInt()}} // a zero coin
 		}
 		msg := &exchange.MsgCommitFundsRequest{Account: a.String(), MarketId: m, Amount: amt}
-		return fmt.Sprintf("CCommit %d %s %s", m, e.addrVar(a.String()), c13Coins(amt)), fmt.Sprintf("commit m=%d %s %s", m, e.names[a.String()], amt), func() error { return e.handle(ctx, msg) }
+		return fmt.Sprintf("CCommit %d %s %s", m, e.addrVar(a.String()), e.coinsTerm(amt)), fmt.Sprintf("commit m=%d %s %s", m, e.names[a.String()], amt), func() error { return e.handle(ctx, msg) }
 	case k < 80: // release commitments
 		m := pickMarket()
 		if len(view.commits) > 0 && r.Intn(8) != 0 {
@@ -1567,6 +1902,178 @@ func (e *c13Env) genCommitOp(ctx sdk.Context, view c13View, want string) (string
 		}
 		msg := &exchange.MsgMarketCommitmentSettleRequest{Admin: e.admin.String(), MarketId: m, Inputs: inputs, Outputs: outputs, Fees: fees}
 		return fmt.Sprintf("CSettle %d %s %s %s", m, e.entriesTerm(inputs), e.entriesTerm(outputs), e.entriesTerm(fees)), fmt.Sprintf("commit-settle m=%d %d in %d out %d fees", m, len(inputs), len(outputs), len(fees)), func() error { return e.handle(ctx, msg) }
+	}
+}
+
+// ---- genesis import ----
+
+// c13GenesisCases: InitGenesis of a random exchange genesis state on the empty store (after
+// GenesisState.Validate), then a short history from the imported state with the same observations
+// and paging sessions as any other history.  The genesis carries orders under arbitrary ids (with
+// gaps, not in id order) on upper-case / long / sibling denoms, commitments given in several
+// entries, payments and owners in both address spellings; some are malformed on purpose (an order
+// id above LastOrderId, an unknown market, an external id carried twice in one market, one payment
+// under both spellings of its source).
+func c13GenesisCases(t *testing.T, e *c13Env, baseCtx sdk.Context) {
+	r, w := e.r, e.w
+	n := scale(8, 60)
+	for gi := 0; gi < n; gi++ {
+		ctx, _ := baseCtx.CacheContext()
+		e.pickAssets()
+		e.freed, e.forced, e.markets, e.nameCtr, e.x100Mkt = nil, nil, nil, 0, 0
+		pickOwner := func() sdk.AccAddress { return e.owners[r.Intn(len(e.owners))] }
+		gs := &exchange.GenesisState{Params: exchange.DefaultParams()}
+		holds := map[string]sdk.Coins{}
+		addHold := func(bech string, amt sdk.Coins) { holds[c13Canon(bech)] = holds[c13Canon(bech)].Add(amt...) }
+		// markets
+		nm := 2 + r.Intn(2)
+		var mk, names []string
+		var mids []uint32
+		mperm := r.Perm(8)[:nm]
+		sort.Ints(mperm) // the name tags are compared with the (ascending) market listing
+		for _, i := range mperm {
+			id := uint32(i + 1)
+			acc := r.Intn(4) != 0
+			tag := e.nameCtr
+			e.nameCtr++
+			gs.Markets = append(gs.Markets, exchange.Market{MarketId: id, MarketDetails: exchange.MarketDetails{Name: fmt.Sprintf("c13-%d", tag)},
+				AcceptingOrders: true, AllowUserSettlement: true, AcceptingCommitments: acc,
+				AccessGrants: []exchange.AccessGrant{{Address: e.admin.String(), Permissions: exchange.AllPermissions()}}})
+			mids = append(mids, id)
+			mk = append(mk, fmt.Sprintf("(%d, %s)", id, coqBool(acc)))
+			names = append(names, fmt.Sprintf("(%d, %d)", id, tag))
+		}
+		gs.LastMarketId = uint32(r.Intn(10))
+		// orders
+		no := r.Intn(9)
+		var os []string
+		maxOrder := uint64(0)
+		for _, i := range r.Perm(40)[:no] {
+			id := uint64(i + 1)
+			o := c13Order{id: id, bid: r.Intn(2) == 0, market: mids[r.Intn(len(mids))], owner: pickOwner().String(), asset: e.pickAsset(), amount: int64(r.Intn(12) + 1),
+				price: c13PriceDenoms[r.Intn(len(c13PriceDenoms))]}
+			if r.Intn(10) < 5 {
+				o.ext = fmt.Sprintf("%s-%d", c13ExtPool[r.Intn(len(c13ExtPool))], id) // unique
+				if r.Intn(12) == 0 {
+					o.ext = "x" // may be carried twice in one market: InitGenesis panics
+				}
+			}
+			if r.Intn(40) == 0 {
+				o.market = 9 // may be unknown
+			}
+			assets := sdk.Coin{Denom: o.asset, Amount: sdkmath.NewInt(o.amount)}
+			price := sdk.NewInt64Coin(o.price, o.amount*3)
+			e.countDenom(o.asset, o.price)
+			ord := exchange.NewOrder(id)
+			if o.bid {
+				ord = ord.WithBid(&exchange.BidOrder{MarketId: o.market, Buyer: e.respell(o.owner), Assets: assets, Price: price, AllowPartial: true, ExternalId: o.ext})
+			} else {
+				ord = ord.WithAsk(&exchange.AskOrder{MarketId: o.market, Seller: e.respell(o.owner), Assets: assets, Price: price, AllowPartial: true, ExternalId: o.ext})
+			}
+			gs.Orders = append(gs.Orders, *ord)
+			addHold(o.owner, ord.GetHoldAmount())
+			os = append(os, fmt.Sprintf("(%d, %s)", id, e.orderTerm(o)))
+			if id > maxOrder {
+				maxOrder = id
+			}
+		}
+		gs.LastOrderId = maxOrder + uint64(r.Intn(4))
+		if maxOrder > 0 && r.Intn(12) == 0 {
+			gs.LastOrderId = maxOrder - 1
+		}
+		// commitments
+		var cs []string
+		var lastCom *exchange.Commitment
+		for i, nc := 0, r.Intn(5); i < nc; i++ {
+			c := exchange.Commitment{MarketId: mids[r.Intn(len(mids))], Account: pickOwner().String(), Amount: sdk.NewCoins(sdk.NewInt64Coin(e.pickAsset(), int64(1+r.Intn(9))))}
+			if r.Intn(3) == 0 {
+				c.Amount = c.Amount.Add(sdk.NewInt64Coin(e.assets[3+r.Intn(2)], int64(1+r.Intn(5))))
+			}
+			if lastCom != nil && r.Intn(3) == 0 { // a second entry of the same market and account
+				c.MarketId, c.Account = lastCom.MarketId, lastCom.Account
+			}
+			cc := c
+			lastCom = &cc
+			addHold(c.Account, c.Amount)
+			cs = append(cs, fmt.Sprintf("(%d, %s, %s)", c.MarketId, e.addrVar(c.Account), e.coinsTerm(c.Amount)))
+			c.Account = e.respell(c.Account)
+			gs.Commitments = append(gs.Commitments, c)
+		}
+		// payments
+		var ps []string
+		usedPay := map[string]bool{}
+		for i, np := 0, r.Intn(6); i < np; i++ {
+			src := pickOwner()
+			p := c13Pay{src: src.String(), srcUp: r.Intn(3) == 0, amount: int64(1 + r.Intn(5))}
+			if r.Intn(3) != 0 {
+				p.ext = c13ExtPool[r.Intn(len(c13ExtPool))]
+			}
+			if usedPay[p.src+" "+p.ext] {
+				continue
+			}
+			usedPay[p.src+" "+p.ext] = true
+			if r.Intn(4) != 0 {
+				for {
+					tg := pickOwner()
+					if !tg.Equals(src) {
+						p.tgt, p.tgtUp = tg.String(), r.Intn(2) == 0
+						break
+					}
+				}
+			}
+			add := func(p c13Pay) {
+				amt := sdk.NewCoins(sdk.NewInt64Coin("bbb", p.amount))
+				gs.Payments = append(gs.Payments, exchange.Payment{Source: p.srcStr(), SourceAmount: amt, Target: p.tgtStr(), ExternalId: p.ext})
+				addHold(p.src, amt)
+				ps = append(ps, e.payTerm(p))
+				if p.srcUp || p.tgtUp {
+					w.Count("payments_created_with_upper_case_address")
+				}
+			}
+			add(p)
+			if r.Intn(14) == 0 { // the same payment under the other spelling of its source
+				p.srcUp = !p.srcUp
+				add(p)
+				w.Count("genesis_payment_under_both_source_spellings")
+			}
+		}
+		for _, a := range e.owners {
+			if amt := holds[a.String()]; !amt.IsZero() {
+				if err := e.hold(ctx, a, amt); err != nil {
+					t.Fatalf("placing the genesis holds: %v", err)
+				}
+			}
+		}
+		err := e.initGen(ctx, gs)
+		ok := err == nil
+		w.Count("genesis_imports")
+		var steps, descOps []string
+		var view c13View
+		accepted := 0
+		if ok {
+			w.Count("genesis_imports_accepted")
+			e.markets = append([]uint32{}, mids[:2]...)
+			e.forced = []string{"observe-only"}
+			if gi%2 == 0 {
+				e.forced = append(e.forced, "pay-up-target", "pay-respell")
+			}
+			steps, descOps, view, accepted = e.runSteps(ctx, 8+r.Intn(5), gi%3 == 0, c13View{}, gs.LastOrderId)
+		} else {
+			msg := err.Error()
+			if len(msg) > 200 {
+				msg = msg[:200]
+			}
+			descOps = []string{"genesis refused: " + msg}
+		}
+		j := func(l []string) string { return "[" + strings.Join(l, "; ") + "]" }
+		gterm := fmt.Sprintf("(G %s %d\n  %s %d\n  %s\n  %s)", j(mk), gs.LastMarketId, j(os), gs.LastOrderId, j(cs), j(ps))
+		term := "(" + e.lets() + "CGen " + gterm + " " + j(names) + " " + coqBool(ok) + " [\n  " + strings.Join(steps, ";\n  ") + "])%N"
+		w.Add(term, map[string]any{"genesis": gi, "accepted": ok, "markets": len(gs.Markets), "orders": len(gs.Orders), "commitments": len(gs.Commitments),
+			"payments": len(gs.Payments), "last_order_id": gs.LastOrderId, "steps": descOps, "open_orders_at_end": len(view.orders)})
+		if ok && len(gs.Orders)+len(gs.Payments)+len(gs.Commitments) > 0 {
+			w.Nontrivial(fmt.Sprintf("genesis|%d|%d|%d|%s", len(gs.Orders), len(gs.Payments), len(gs.Commitments), strings.Join(descOps, "|")))
+		}
+		_ = accepted
 	}
 }
 
